@@ -136,3 +136,26 @@ package convert
 //@   ensures (=> (= result.1 nil.Any) (and (wf_deep result.0) (= (vs_of result.0) (cset_of in want)) (=> (not (deep_marked in)) (not (is_marked result.0))) (=> (and (kn in) (is_set_ty (vty in)) (is_set_ty want)) (and (kn result.0) (is_set_ty (vty result.0))))))
 // (consequences of the conformance clause for set types, stated for the element types so that the terms exist)
 //@   ensures (=> (and (= result.1 nil.Any) (is_set_ty want) (is_set_ty (vty result.0))) (and (conforms (elem_ty (vty result.0)) (elem_ty want)) (not (has_opt (elem_ty (vty result.0))))))
+//
+// The wrapper that getConversion puts around every type-specific conversion (C08): marks are taken off
+// and re-applied around a recursive call of the wrapper itself; a dynamic target passes the value through;
+// unknown and null values are answered here; only a known, non-null, unmarked value reaches the
+// type-specific conversion `conv` (which assumes exactly that). The two `owed` clauses are obligations at
+// the wrapper's calls although the wrapper itself is verified without a no-panic claim (the refinement
+// replay inside prepareUnknownResult may panic).
+//@ func convert.getConversion$1
+//@   tags C08 C20
+//@   may_panic
+//@   borrows path
+//@   writes cty.Type out
+//@   let OUT0 (old ($at<cty.Type> out))
+//@   requires (and (wf_deep in) (wf_ty OUT0))
+//@   ensures[C08] dynamic: (=> (and (not (is_marked in)) (is_dyn_ty OUT0)) (and (= result.1 nil.Any) (= result.0 in)))
+//@   ensures[C08] null: (=> (and (not (is_marked in)) (not (is_dyn_ty OUT0)) (is_known in) (is_null in)) (and (= result.1 nil.Any) (is_known result.0) (is_null result.0) (not (is_marked result.0))))
+//@   ensures[C08] unknown: (=> (and (not (is_marked in)) (not (is_dyn_ty OUT0)) (not (is_known in))) (= result.1 nil.Any))
+//@   calls conv
+//@     may_panic
+//@     requires[C08,owed] plain_input: (and (not (is_marked arg0)) (is_known arg0) (not (is_null arg0)))
+//@   calls ret
+//@     may_panic
+//@     requires[C08,owed] unmarked_input: (not (is_marked arg0))
